@@ -36,7 +36,7 @@ def case_strategy(profile):
     if profile.get("change_cid", True):
         ops.append(st.fixed_dictionaries({"t": tm, "who": who, "op": st.just("change_cid")}))
     if profile.get("rebind", False):
-        ops.append(st.fixed_dictionaries({"t": tm, "who": st.just("c"), "op": st.just("rebind")}))
+        ops.append(st.fixed_dictionaries({"t": tm, "who": st.just("c"), "op": st.just("rebind"), "to": st.sampled_from([None, None, 0, 1, 2])}))
     if profile.get("close", False):
         ops.append(st.fixed_dictionaries({"t": tm, "who": who, "op": st.just("close"), "code": st.sampled_from([0, 0x100, 7]), "reason": st.sampled_from(["", "bye", "x" * 300])}))
         ops.append(st.fixed_dictionaries({"t": tm, "who": st.just("c"), "op": st.just("blackout")}))
@@ -698,7 +698,7 @@ def sim_task(ctx, prop, profile_name, examples, shard):
     from hypothesis import strategies as st
     from .harness import run_hypothesis
 
-    strat = rebind_strategy() if profile_name == "C01-rebind-validation" else case_strategy(PROFILES[profile_name])
+    strat = rebind_strategy() if profile_name == "C01-rebind-validation" else migration_strategy() if profile_name == "C13-migration" else case_strategy(PROFILES[profile_name])
 
     def body(ctx, case):
         sim = run_case(ctx, prop, case)
@@ -741,6 +741,37 @@ def rebind_strategy():
     ).map(build)
 
 
+def migration_strategy():
+    """a client that changes its address twice in quick succession (three addresses) while the server has plenty to send, on a network that
+    reorders: answers to the path challenge of the second address can arrive after the third address has become the active one"""
+    from hypothesis import strategies as st
+
+    delay = st.sampled_from([0.001, 0.005, 0.02, 0.05, 0.12, 0.3])
+    fate = st.tuples(st.sampled_from(["deliver"] * 8 + ["drop", "dup"]), delay, delay).map(list)
+
+    def build(t):
+        t0, d1, d2, order, n1, n2, gap, cc, mds, fates = t
+        script = [{"t": round(t0 + 0.001, 4), "who": "s", "op": "write", "stream": "uni", "n": 200000, "fin": True}]
+        script.append({"t": t0, "who": "c", "op": "rebind", "to": order[0]})
+        for i in range(n1):
+            script.append({"t": round(t0 + 0.0005 + i * min(gap, d1 / (n1 + 1)), 4), "who": "c", "op": "ping"})
+        script.append({"t": round(t0 + d1, 4), "who": "c", "op": "rebind", "to": order[1]})
+        for i in range(n2):
+            script.append({"t": round(t0 + d1 + 0.0005 + i * gap, 4), "who": "c", "op": "ping"})
+        if d2:
+            script.append({"t": round(t0 + d1 + d2, 4), "who": "c", "op": "rebind", "to": order[2]})
+            script.append({"t": round(t0 + d1 + d2 + 0.001, 4), "who": "c", "op": "ping"})
+        script.append({"t": round(t0 + d1 + 0.3, 4), "who": "s", "op": "write", "stream": "uni", "n": 200000, "fin": True})
+        script.sort(key=lambda o: o["t"])
+        cfg = {"cc": cc, "client_version": V1, "server_versions": [V1, V2], "max_data": 1048576, "max_stream_data": 1048576, "mds": mds, "leaf": "ed25519", "retry": False, "mute_client_after": None}
+        return {"cfg": cfg, "script": script, "fates": fates, "jitter": [0.0], "adv_end": 3.0, "fair": 6.0}
+
+    return st.tuples(
+        st.sampled_from([0.5, 0.8, 1.2]), st.sampled_from([0.002, 0.01, 0.03, 0.1, 0.3]), st.sampled_from([0, 0, 0.01, 0.1]), st.permutations([0, 1, 2]), st.integers(1, 4), st.integers(1, 6),
+        st.sampled_from([0.001, 0.01, 0.05]), st.sampled_from(["reno", "cubic"]), st.sampled_from([1200, 1350]), st.lists(fate, min_size=150, max_size=500),
+    ).map(build)
+
+
 def plan_for(prop, tier, seed):
     q = tier == "quick"
     t = []
@@ -753,6 +784,9 @@ def plan_for(prop, tier, seed):
         n = 14 if q else 16
         for s in range(n):
             t.append(("sim-%s-%d" % (prop.lower(), s), {"fn": "sim", "profile": prop, "examples": 160 if q else 4000, "shard": s}))
+    if prop == "C13":
+        for s in range(2 if q else 4):
+            t.append(("sim-c13-migration-%d" % s, {"fn": "sim", "profile": "C13-migration", "examples": 60 if q else 3000, "shard": s}))
     if prop == "C08":
         for s in range(6 if q else 8):
             t.append(("wire-c08-%d" % s, {"fn": "sim", "profile": "C08", "examples": 100 if q else 2500, "shard": s}))
